@@ -1,2 +1,65 @@
-(* Property C11 -- stub while the proofs are written *)
-From Krrood Require Import Eql.MatchSpec Eql.Match Eql.MatchFrag.
+(* Property C11 -- pattern matching is equivalent to the explicit query it abbreviates.
+   Statements only.  Spec: Eql/MatchSpec.v ([matches], structural recursion on the pattern).  Model: Eql/Match.v
+   (pattern -> conditions as match.py builds them, with every boolean decision taken from Gen/Match.v which is
+   regenerated from match.py on every run; evaluation of the conditions as symbolic.py does, bindings keyed by node).
+   Unbounded in: nesting depth, number of keywords per match, sizes of collections, domain and world contents. *)
+From Coq Require Import List ZArith Bool Arith.
+From Krrood Require Import Base.Sx Eql.Syntax Eql.MatchSpec Eql.MatchSpecShow Gen.Match Eql.Match Eql.MatchFrag
+  Eql.MatchProofs Eql.MatchWitness.
+Import ListNotations.
+
+(* an(entity_matching(T, dom)(keywords)).evaluate() returns exactly the elements of dom of type T that satisfy the
+   pattern -- as a set of identities: two distinct elements are two answers whatever their attribute values.
+   F11 (decidable, Eql/MatchFrag.v): keywords well typed against the class model and distinct, nested types comparable
+   with the declared attribute type, no empty value list under match_any / match_all, every nested match on a
+   collection emits a condition and its first one is not an exists(...). *)
+Theorem C11_match : forall C objcls M T l dom,
+  sub_trans C -> typed C objcls M -> NoDup dom -> F11 C objcls T l = true ->
+  forall o, In o (run C M T l dom) <-> In o (spec_run (sub C) M T l dom).
+Proof. exact match_run_exact. Qed.
+
+(* the conditions built from the keywords are satisfiable from the binding root := o exactly when o satisfies the
+   keywords (Spec), and every result keeps that binding of the root *)
+Theorem C11_match_sat : forall C objcls M D, sub_trans C -> typed C objcls M -> forall T l o,
+  fok_alist C objcls T PRoot l = true -> In o D -> sub C (otype M o) T = true ->
+  (eval_all C M D (tr_alist C T PRoot l) [(PRoot, VO o)] <> [] <-> matches_attrs (sub C) M l o = true)
+  /\ (forall e', In e' (eval_all C M D (tr_alist C T PRoot l) [(PRoot, VO o)]) -> lookup e' PRoot = Some (VO o)).
+Proof. exact match_sat. Qed.
+
+(* the left-nested AND chain with its false results computes the sequential evaluation used in the proofs *)
+Theorem C11_and_chain : forall C M D cs, true_envs C M D cs = eval_all C M D cs [].
+Proof. exact true_envs_seq. Qed.
+
+(* ---- outside F11 the statement is false of the faithful model (and of the implementation: known findings) ---- *)
+(* C11-b: match_all([]) / match_any([]) contribute no condition *)
+Theorem C11_refuted_empty_list :
+  in_F w_kf_emptylist = false /\ differs w_kf_emptylist = true /\
+  in_F w_kf_emptylist_any = false /\ differs w_kf_emptylist_any = true.
+Proof. exact refuted_empty_list. Qed.
+(* C11-c: match_any as the first condition under a flattened collection keeps one witness per root element *)
+Theorem C11_refuted_exists_first : in_F w_kf_existsfirst = false /\ differs w_kf_existsfirst = true.
+Proof. exact refuted_exists_first. Qed.
+(* C11-d: a nested type unrelated to the declared attribute type is not checked *)
+Theorem C11_refuted_unrelated_type : in_F w_kf_unrelated = false /\ differs w_kf_unrelated = true.
+Proof. exact refuted_unrelated_type. Qed.
+(* C11-e: a nested match on a collection that emits no condition does not require a member *)
+Theorem C11_refuted_empty_nested : in_F w_kf_emptynested = false /\ differs w_kf_emptynested = true.
+Proof. exact refuted_empty_nested. Qed.
+(* C11-a (repaired by ded4892): value-equal collections no longer collapse *)
+Theorem C11_fixed_any_dedup :
+  in_F w_fixed_any_dedup = true /\ model_out w_fixed_any_dedup = SL [SZ 4; SZ 5] /\ spec_out w_fixed_any_dedup = SL [SZ 4; SZ 5].
+Proof. exact fixed_any_dedup. Qed.
+
+(* non-vacuity: a depth-3 pattern inside F11 (type narrowing through a collection, match_any after a binding
+   condition, a second keyword at the root) whose answer is one of three racks *)
+Example C11_nonvacuous : in_F w_ok = true /\ model_out w_ok = SL [SZ 6] /\ spec_out w_ok = SL [SZ 6].
+Proof. exact nonvacuous. Qed.
+
+Print Assumptions C11_match.
+Print Assumptions C11_match_sat.
+Print Assumptions C11_and_chain.
+Print Assumptions C11_refuted_empty_list.
+Print Assumptions C11_refuted_exists_first.
+Print Assumptions C11_refuted_unrelated_type.
+Print Assumptions C11_refuted_empty_nested.
+Print Assumptions C11_fixed_any_dedup.
